@@ -297,6 +297,18 @@ def oracle_basic(case, rec):
              R.nsi_local_soffer_clustering(A, w),
              "nsi_local_soffer_clustering")
     plan.cmp(net, "nsi_twinness", R.nsi_twinness(A, w), "nsi_twinness")
+    if n <= 9:
+        # weighted shortest-path betweenness by path enumeration
+        refb = R.nsi_betweenness(A, w)
+        plan.cmp(net, "nsi_betweenness", refb, "nsi_betweenness_def",
+                 rtol=1e-9, atol=1e-12 * max(float(np.abs(refb).max()),
+                                             float(np.min(w))))
+        plan.cmp(net, "nsi_interregional_betweenness",
+                 R.nsi_betweenness(A, w, src, tgt),
+                 "nsi_interregional_betweenness_def",
+                 kw={"sources": src, "targets": tgt}, rtol=1e-9,
+                 atol=1e-12 * max(float(np.abs(refb).max()),
+                                  float(np.min(w))))
     plan.cmp(net, "undirected_adjacency", U, "undirected_adjacency")
     if connected and n >= 3 and U.sum():
         plan.cmp(net, "nsi_eigenvector_centrality",
@@ -498,7 +510,11 @@ def _attr(n, directed, salt):
 def enum_small(tier):
     for idx, g in enumerate(G.all_small_graphs(5, 4)):
         n = g["n"]
-        yield {"g": g, "w": _dyadic_w(n, idx % 5),
+        # every seventh graph carries its weights at one of the small
+        # magnitudes (exact powers of two near 1e-8 / 1e-9 / 1e-6)
+        sc = (1.0, 2.0 ** -26, 2.0 ** -30, 2.0 ** -20)[
+            (idx // 7) % 4 if idx % 7 == 0 else 0]
+        yield {"g": g, "w": [v * sc for v in _dyadic_w(n, idx % 5)],
                "W": _attr(n, g["directed"], idx % 4),
                "src": [idx % n, (idx // 3) % n], "tgt": [(idx // 7) % n]}
 
